@@ -5,18 +5,18 @@ From Bfe Require Import lib.Val lib.Bytes model.Bufio proofs.BufioProofs proofs.
 Import ListNotations.
 Open Scope Z_scope.
 
-(* CENTRAL THEOREM (partial: guard wf_C22).  wf_C22 is the executable well-formedness of a harness input: a reader
-   script (tag 1, or 3 = the source is also an io.WriterTo: source chunks of bytes >= 0; operations Read n>=0 /
-   ReadByte / UnreadByte / ReadSlice / ReadLine / Peek / ReadBytes / WriteTo / ReadRune / Reset) or a writer script (tag 2, or 4 = the
-   sink is also an io.ReaderFrom: Write / WriteByte / WriteString / Flush / ReadFrom / WriteRune / Reset).  On every such
-   input the predicate that the harness evaluates on the implementation's observations (stream slices at the
-   running position, TotalRead = pulled - Buffered after every operation, delimiter shape of ReadSlice/ReadBytes
-   lines, ReadLine terminators, Peek lengths, ReadRune = UTF-8 decoding of the bytes at the position; accepted-byte accounting, TotalWrite, monotone sink, Flush) holds of
-   the model's observations.  The only generated operation outside the guard (correspondence + prop only) is
-   UnreadRune (op 11). *)
-Theorem C22_prop_of_model_partial : forall i, wf_C22 i = true -> kf_C22 i = 0 -> prop_C22 i (run_C22 i) = true.
+(* CENTRAL THEOREM.  wf_C22 is the executable well-formedness of a harness input: a reader script (tag 1, or 3 = the
+   source is also an io.WriterTo: source chunks of bytes >= 0; operations Read n>=0 / ReadByte / UnreadByte /
+   ReadSlice / ReadLine / Peek / ReadBytes / WriteTo / ReadRune / UnreadRune / Reset) or a writer script (tag 2, or
+   4 = the sink is also an io.ReaderFrom: Write / WriteByte / WriteString / Flush / ReadFrom / WriteRune / Reset) -
+   every shape the generator produces.  On every such input the predicate that the harness evaluates on the
+   implementation's observations (stream slices at the running position, TotalRead = pulled - Buffered after every
+   operation, delimiter shape of ReadSlice/ReadBytes lines, ReadLine terminators, Peek lengths, ReadRune = UTF-8
+   decoding of the bytes at the position, UnreadRune moving back 1..4 bytes onto the bytes consumed last, Reset;
+   accepted-byte accounting, TotalWrite, monotone sink, Flush, Reset) holds of the model's observations. *)
+Theorem C22_prop_of_model : forall i, wf_C22 i = true -> kf_C22 i = 0 -> prop_C22 i (run_C22 i) = true.
 Proof. exact prop_C22_of_model. Qed.
-Print Assumptions C22_prop_of_model_partial.
+Print Assumptions C22_prop_of_model.
 (* corpus cases readslice-refill and readfrom-early-return are well-formed *)
 Example C22_wf_corpus :
   wf_C22 (VL [VZ 1; VZ 16; VL [VL [VB [97;98]; VZ 0]; VL [VB [99;100;101;10]; VZ 0]]; VL [VL [VZ 2]; VL [VZ 4; VZ 10]]]) = true /\
